@@ -30,7 +30,8 @@ LEVEL_TEXT = ("Exhaustive enumeration of fault sequences on the real code under 
               "timers x entry point (run_forever / run with a supporting task); the error out of "
               "run_forever(), Circuit.error, shutdown() and run() must be the first fatal error "
               "that reached the simulator; non-fatal kinds must leave the circuit ready; a stopped "
-              "circuit must stay not ready.")
+              "circuit must stay not ready. Plus: abort() before the start, and every single / ordered "
+              "pair of 5 error sites inside the simulation task's own initialisation pass.")
 LEVEL_NOTE = ("The delivery order is observed at the public Circuit.abort() and in the instrumented "
               "output function; sources are fired from timer callbacks so that true ties exist; "
               "the circuit always contains blocks with failing init_async, restore and stop().")
@@ -94,7 +95,24 @@ def configs(tier):
         for exc in ('fault', 'cancel'):
             for then in (None, 'H', 'A'):
                 out.append(dict(kind='prestart', entry=entry, exc=exc, then=then))
+    # errors delivered from inside the simulation task while it initialises the blocks
+    for entry in ('run_forever', 'run'):
+        for a in INIT_SITES:
+            for astop in (True, False):
+                out.append(dict(kind='initfault', entry=entry, sites=(a,), astop=astop))
+            if a in INIT_QUIET:
+                for b in INIT_SITES:
+                    if b != a:
+                        out.append(dict(kind='initfault', entry=entry, sites=(a, b), astop=True))
     return out
+
+
+# raise: init_regular raises; evt: an initdef's output event reaches a failing handler (the
+# error propagates through the initialisation); ctl: an initdef's output event is an 'abort'
+# control event; sup: init_regular sends an event to a failing handler and suppresses the
+# error; abort: init_regular calls abort() and carries on
+INIT_SITES = ('raise', 'evt', 'ctl', 'sup', 'abort')
+INIT_QUIET = ('ctl', 'sup', 'abort')        # no exception reaches run_forever()
 
 
 CANCEL_MARK = asyncio.CancelledError('harness: task.cancel()')
@@ -451,8 +469,111 @@ def run_prestart(cfg, acc):
     return viol
 
 
+def run_initfault(cfg, acc):
+    viol = []
+    res = {}
+    log = []
+    delivered = []
+    with Sim(max_iterations=20000) as sim:
+        circuit = sim.circuit
+        excs = {}
+        if cfg['astop']:
+            lblock_class(astop=True)('ast', log=log, cfg={
+                'init_regular': ('set', 0), 'astop': (0.25, None)}, stop_timeout=3)
+        lblock_class()('plain', log=log, cfg={'init_regular': ('set', 0)})
+        for i, site in enumerate(cfg['sites']):
+            exc = excs[i] = Tagged(f"{site}{i}")
+            if site == 'raise':
+                lblock_class()(f's{i}', log=log, cfg={'init_regular': ('raise', exc)})
+            elif site == 'evt':
+                h = lblock_class()(f'h{i}', log=log, cfg={'init_regular': ('set', 0),
+                                                        'event': ('raise', exc)})
+                edzed.Input(f's{i}', initdef=1, on_output=edzed.Event(h, 'ev'))
+            elif site == 'ctl':
+                edzed.Input(f's{i}', initdef=1, on_output=edzed.Event(
+                    '_ctrl', 'abort', efilter=edzed.DataEdit.add(error=exc)))
+            elif site == 'sup':
+                h = lblock_class()(f'h{i}', log=log, cfg={'init_regular': ('set', 0),
+                                                        'event': ('raise', exc)})
+
+                def suppress(blk, h=h):
+                    try:
+                        h.event('ev', value=1)
+                    except Exception:   # pylint: disable=broad-except
+                        pass
+                    blk.set_output(0)
+                lblock_class()(f's{i}', log=log, cfg={'init_regular': ('call', suppress)})
+            elif site == 'abort':
+                def do_abort(blk, exc=exc):
+                    blk.circuit.abort(exc)
+                    blk.set_output(0)
+                lblock_class()(f's{i}', log=log, cfg={'init_regular': ('call', do_abort)})
+        lblock_class()('last', log=log, cfg={'init_regular': ('set', 0)})
+        real_abort = circuit.abort
+
+        def abort_spy(exc):
+            delivered.append(exc)
+            return real_abort(exc)
+        circuit.abort = abort_spy
+
+        async def idle():
+            await asyncio.get_running_loop().create_future()
+
+        async def driver():
+            if cfg['entry'] == 'run':
+                main = asyncio.create_task(edzed.run(idle()))
+            else:
+                main = asyncio.create_task(circuit.run_forever())
+            await asyncio.sleep(0)
+            res['wait_init'] = await _capture(circuit.wait_init())
+            for _ in range(30):
+                if main.done():
+                    break
+                await asyncio.sleep(1)
+            res['finished'] = main.done()
+            if not main.done():
+                main.cancel()
+                await asyncio.sleep(5)
+            res['main'] = await _capture(main)
+            res['simtask'] = await _capture(circuit._simtask) if circuit._simtask else None
+            res['error'] = circuit.error
+            res['shutdown'] = await _capture(circuit.shutdown())
+            res['ready'] = circuit.is_ready()
+        try:
+            sim.run(driver())
+        except Livelock as err:
+            return [('driver-died', repr(err))]
+    acc.execs += 1
+    acc.outcome(('initfault', cfg['entry'], cfg['sites'], cfg['astop'], repr(res.get('main')), repr(res.get('error'))))
+    tag = f"errors {cfg['sites']} while the simulation task initialises the blocks, via {cfg['entry']}"
+    error, first = res['error'], excs[0]
+    if not res['finished']:
+        return [('fatal-error-did-not-stop-the-simulation', f"{tag}: still running 30 s later")]
+    if not (error is first or (error is not None and error.__cause__ is first)):
+        viol.append(('first-error-replaced', f"{tag}: the first error is {first!r}, Circuit.error is "
+                     f"{error!r} (cause {getattr(error, '__cause__', None)!r}); abort() calls: {delivered!r}"))
+    if cfg['sites'][0] in ('evt', 'sup', 'ctl') and not isinstance(error, edzed.EdzedCircuitError):
+        viol.append(('handler-error-not-wrapped', f"{tag}: {error!r}"))
+    if res['simtask'] is None or res['simtask'][0] != 'raised' or res['simtask'][1] is not error:
+        viol.append(('run_forever-result', f"{tag}: run_forever() ended with {res['simtask']!r}, "
+                     f"Circuit.error={error!r}"))
+    if res['shutdown'][0] != 'raised' or res['shutdown'][1] is not error:
+        viol.append(('shutdown-result', f"{tag}: shutdown() -> {res['shutdown']!r}, Circuit.error={error!r}"))
+    if cfg['entry'] == 'run' and (res['main'][0] != 'raised' or res['main'][1] is not error):
+        viol.append(('run-result', f"{tag}: run() -> {res['main']!r}, Circuit.error={error!r}"))
+    if res['wait_init'][0] != 'raised' or not isinstance(res['wait_init'][1], edzed.EdzedInvalidState):
+        viol.append(('wait_init-after-failed-start', f"{tag}: wait_init() -> {res['wait_init']!r}"))
+    if res['ready']:
+        viol.append(('ready-after-stop', f"{tag}: is_ready() after the failed start"))
+    return viol
+
+
 def run_config(cfg):
     acc = Acc()
+    if cfg['kind'] == 'initfault':
+        for sig, msg in run_initfault(cfg, acc):
+            acc.violation(f"C09:{sig}:init", msg, cfg=cfg)
+        return acc
     if cfg['kind'] == 'prestart':
         for sig, msg in run_prestart(cfg, acc):
             acc.violation(f"C09:{sig}", msg, cfg=cfg)
